@@ -262,3 +262,35 @@ func Poison(p []byte) {
 }
 
 var _ = time.Second
+
+// Knob returns the value of a tuning constant of the code under test for
+// this run: dflt in most runs; in one run in eight every knob is,
+// independently with probability one half, replaced by a small value, so
+// that correctness never silently depends on one configuration (a queue
+// too long for its full-queue path ever to run is the classic blind
+// spot).  The rewriter routes the capacities of buffered channels here.
+func Knob(name string, dflt int) int {
+	s := cur.Load()
+	if s == nil || !runtime_simInBubble() {
+		return dflt
+	}
+	s.mu.Lock()
+	defer s.mu.Unlock()
+	if s.knobs == nil {
+		s.knobs = map[string]int{}
+		s.knobsOn = s.KnobsAllowed && s.St.Bool(1, 8)
+	}
+	if v, ok := s.knobs[name]; ok {
+		return v
+	}
+	v := dflt
+	if s.knobsOn && s.St.Bool(1, 2) {
+		v = Pick(s.St, 1, 2, 4, 16)
+		if v > dflt {
+			v = dflt
+		}
+		s.Probes["knob-"+name+"-small"]++
+	}
+	s.knobs[name] = v
+	return v
+}
